@@ -10,11 +10,16 @@
 //   inext <arg>           iterator access (mode v): it = gen.begin() / ++it ; it == gen.end() ? end : *it
 //   fnext <arg>           future access: f = gen(arg); polled after every op
 //   cnext <arg>           a consumer coroutine doing co_await gen.next(arg)
+//   batch s:a s:a ..      ONE consumer coroutine makes all the accesses in a row without unwinding to the thread's
+//                         coroutine queue (the aggregate is used from inside a running coroutine); styles n (next/
+//                         value, blocking), i (iterator), c (co_await next), f (gen() + co_await has_value),
+//                         w (gen() + blocking operator bool); only the last access may stay pending
 //   bnext <arg> k1 k2..   synchronous (blocking) access while a second thread resolves sources k1 k2 ..
 //   res <k> / tres <k>    resolve the future source k awaits, on this thread / on a second thread (joined)
 //   destroy k1 k2 ..      destroy the aggregate (parked) while a second thread resolves k1 k2 ..
 //   stress <limit> <style> <seed>   one resolver thread per asynchronous source; the consumer blocks on this
-//                         thread (style 0 next/value, 1 iterator, 2 future+sync) until <limit> values or the end;
+//                         thread (style 0 next/value, 1 iterator, 2 future+sync, 3 consumer coroutine with co_await next(), 4 consumer
+//                         coroutine blocking in next()) until <limit> values or the end;
 //                         prints schedule-independent facts only
 //   sdestroy <seed>       destroy the aggregate while the resolver threads are running
 //   end                   settle (resolve in-flight sources until nothing is pending), destroy, account
@@ -27,6 +32,7 @@
 #include <cocls/async.h>
 #include <atomic>
 #include <optional>
+#include <functional>
 #include <thread>
 #include <chrono>
 #include <unistd.h>
@@ -242,6 +248,64 @@ struct case_runner {
         me->codone = true;
     }
 
+    // One long-running consumer coroutine performing a whole list of accesses without ever unwinding to the
+    // thread's coro_queue in between (the aggregate is used from INSIDE a running coroutine: coro_queue active).
+    // styles: n = blocking next()/value(), i = iterator, c = co_await next(), f = gen() + co_await has_value(),
+    //         w = gen() + blocking operator bool / operator*
+    std::vector<std::string> batch_results;
+    static std::string fut_result(future<int> &f) {
+        try {
+            int v = f.value();
+            return "v:" + std::to_string(v);
+        } catch (...) {
+            return classify(std::current_exception());
+        }
+    }
+    static async<void> batch_consumer(case_runner *me, std::vector<std::pair<char, int>> accs) {
+        for (auto &ac : accs) {
+            int arg = ac.second;
+            std::string r;
+            if (ac.first == 'n') r = me->sync_next(arg);
+            else if (ac.first == 'i') r = me->iter_next();
+            else {
+                try {
+                    if (ac.first == 'c') {
+                        bool b;
+                        if constexpr (has_arg) b = co_await me->gen->next(arg); else b = co_await me->gen->next();
+                        if (!b) r = "end";
+                        else {
+                            int v = me->gen->value();
+                            r = "v:" + std::to_string(v);
+                        }
+                    } else if (ac.first == 'f') {
+                        if constexpr (has_arg) {
+                            auto f = (*me->gen)(arg);
+                            co_await f.has_value();
+                            r = fut_result(f);
+                        } else {
+                            auto f = (*me->gen)();
+                            co_await f.has_value();
+                            r = fut_result(f);
+                        }
+                    } else {
+                        if constexpr (has_arg) {
+                            auto f = (*me->gen)(arg);
+                            if (f) r = "v:" + std::to_string(*f); else r = fut_result(f);
+                        } else {
+                            auto f = (*me->gen)();
+                            if (f) r = "v:" + std::to_string(*f); else r = fut_result(f);
+                        }
+                    }
+                } catch (...) {
+                    r = classify(std::current_exception());
+                }
+            }
+            me->batch_results.push_back(r);
+            me->coresult = r;
+        }
+        me->codone = true;
+    }
+
     std::string fut_outcome() {
         // the future of gen(): value, exception, or dropped (= the generator ended)
         if (!fut->ready()) return "pending";
@@ -361,42 +425,74 @@ struct case_runner {
         }
         return n;
     }
+    static async<void> stress_consumer(case_runner *me, int style, std::function<bool(const std::string &)> *acc) {
+        for (;;) {
+            std::string r;
+            if (style == 4) r = me->sync_next(0);
+            else {
+                try {
+                    int arg = 0;
+                    bool b;
+                    if constexpr (has_arg) b = co_await me->gen->next(arg); else b = co_await me->gen->next();
+                    if (!b) r = "end";
+                    else {
+                        int v = me->gen->value();
+                        r = "v:" + std::to_string(v);
+                    }
+                } catch (...) {
+                    r = classify(std::current_exception());
+                }
+            }
+            if (!(*acc)(r)) break;
+        }
+    }
     // prints schedule-independent facts only
     std::string do_stress(int limit, int style, unsigned seed) {
         std::vector<int> consumed(srcs.size(), 0);
         int got = 0, dup = 0, order_bad = 0, unknown = 0;
         std::string result = "cut";
         start_resolvers(seed);
-        while (got < limit) {
+        auto account = [&](const std::string &r) -> bool {
             ++g_progress;
-            std::string r;
-            if (style == 0) r = sync_next(0);
-            else if (style == 1 && !has_arg) r = iter_next();
-            else {
-                try {
-                    int arg = 0;
-                    std::unique_ptr<future<int>> f;
-                    if constexpr (has_arg) f.reset(new future<int>([&] { return (*gen)(arg); }));
-                    else f.reset(new future<int>([&] { return (*gen)(); }));
-                    f->sync();
-                    fut = std::move(f);
-                    r = fut_outcome();
-                    fut.reset();
-                } catch (...) {
-                    r = classify(std::current_exception());
-                }
-            }
             if (r.rfind("v:", 0) == 0) {
                 int v = atoi(r.c_str() + 2);
                 int k = v / 1000 - 1, j = v % 1000;
                 ++got;
-                if (k < 0 || (std::size_t)k >= srcs.size()) { ++unknown; continue; }
-                if (j < consumed[k] % 1000) ++dup;
-                else if (j > consumed[k] % 1000) ++order_bad;
+                if (k < 0 || (std::size_t)k >= srcs.size()) { ++unknown; return got < limit; }
+                if (j < consumed[k]) ++dup;
+                else if (j > consumed[k]) ++order_bad;
                 else ++consumed[k];
-            } else {
-                result = r;
-                break;
+                return got < limit;
+            }
+            result = r;
+            return false;
+        };
+        if (style >= 3) {
+            // the consumer is a coroutine (3: co_await next(), 4: blocking next() inside the coroutine); it is
+            // resumed on whatever thread completes a source
+            std::function<bool(const std::string &)> acc = account;
+            future<void> f([&] { return stress_consumer(this, style, &acc).start(); });
+            f.wait();
+        } else if (limit > 0) {
+            for (;;) {
+                std::string r;
+                if (style == 0) r = sync_next(0);
+                else if (style == 1 && !has_arg) r = iter_next();
+                else {
+                    try {
+                        int arg = 0;
+                        std::unique_ptr<future<int>> f;
+                        if constexpr (has_arg) f.reset(new future<int>([&] { return (*gen)(arg); }));
+                        else f.reset(new future<int>([&] { return (*gen)(); }));
+                        f->sync();
+                        fut = std::move(f);
+                        r = fut_outcome();
+                        fut.reset();
+                    } catch (...) {
+                        r = classify(std::current_exception());
+                    }
+                }
+                if (!account(r)) break;
             }
         }
         join_resolvers();
@@ -522,6 +618,30 @@ struct case_runner {
                 } else {
                     pending = true;
                     out("cnext pending");
+                }
+            } else if (op == "batch" && !pending && w.size() >= 2) {
+                std::vector<std::pair<char, int>> accs;
+                bool okb = true;
+                for (std::size_t i = 1; i < w.size(); ++i) {
+                    if (w[i].size() < 3 || w[i][1] != ':' || !strchr("nicfw", w[i][0]) || (w[i][0] == 'i' && has_arg)) okb = false;
+                    else accs.push_back({w[i][0], atoi(w[i].c_str() + 2)});
+                }
+                if (!okb) {
+                    vh::emit("bad-op", evs);
+                } else {
+                    codone = false;
+                    coresult.clear();
+                    batch_results.clear();
+                    cofut.reset(new future<void>([&] { return batch_consumer(this, accs).start(); }));
+                    std::string head = "batch";
+                    for (auto &r : batch_results) head += " " + r;
+                    if (codone) {
+                        cofut.reset();
+                    } else {
+                        pending = true;
+                        head += " pending";
+                    }
+                    out(head);
                 }
             } else if ((op == "res" || op == "tres") && w.size() == 2 && valid_src(w, 1)) {
                 int k = atoi(w[1].c_str());
